@@ -47,6 +47,16 @@ static void wait_turn(int me)
     while (turn != me) pthread_cond_wait(&cv, &mu);
 }
 
+static void tramp_done(void *vp)
+{
+    const int me = (int)(intptr_t)vp;
+    pthread_mutex_lock(&mu);
+    th[me].finished = true;
+    turn = -1;
+    pthread_cond_broadcast(&cv);
+    pthread_mutex_unlock(&mu);
+}
+
 static void *trampoline(void *vp)
 {
     const int me = (int)(intptr_t)vp;
@@ -54,13 +64,12 @@ static void *trampoline(void *vp)
     pthread_mutex_lock(&mu);
     wait_turn(me);
     pthread_mutex_unlock(&mu);
-    void *r = th[me].fn(th[me].arg);
-    pthread_mutex_lock(&mu);
+    /* the thread may also end through pthread_exit (cmb_logger_error does that): hand the baton back in a clean-up handler */
+    void *r = NULL;
+    pthread_cleanup_push(tramp_done, vp);
+    r = th[me].fn(th[me].arg);
     th[me].ret = r;
-    th[me].finished = true;
-    turn = -1;
-    pthread_cond_broadcast(&cv);
-    pthread_mutex_unlock(&mu);
+    pthread_cleanup_pop(1);
     return r;
 }
 
